@@ -4,6 +4,7 @@ from __future__ import annotations
 
 import itertools
 import random
+import warnings
 from collections import Counter
 
 from . import common
@@ -151,6 +152,51 @@ def run_case(kind, cols, required, ndim, acc):
     return res
 
 
+def run_builder_case(rng, acc):
+    """One builder object prepares two different tables one after the other (an import
+    dialog that is re-used): the map it holds after the second prepare() must obey the same
+    laws with respect to the SECOND table's columns."""
+    import pandas as pd
+
+    from funtracks.import_export import CSVTracksBuilder
+
+    contracted()
+    b = CSVTracksBuilder()
+    maps = []
+    for _ in range(2):
+        k = rng.randint(3, 9)
+        cols = rng.sample(VOCAB, k)
+        for need in ("id", "parent_id"):
+            if need not in cols and rng.random() < 0.7:
+                cols.append(need)
+        df = pd.DataFrame({c: [1, 2] for c in cols})
+        try:
+            with warnings.catch_warnings():
+                warnings.simplefilter("ignore")
+                b.prepare(df)
+        except PostBroken:
+            return  # the contract clauses on the functions report that themselves
+        except Exception:
+            return
+        maps.append((cols, dict(b.node_name_map)))
+    cols, res = maps[-1]
+    acc["evaluations"] += 1
+    acc["counters"]["builder-reuse-cases"] = acc["counters"].get("builder-reuse-cases", 0) + 1
+    used = Counter(flatten(res))
+    ok = used == Counter(cols)
+    exact = all(res.get(c) == c for c in cols
+                if c in set(getattr(b, "required_features", [])) | {"seg_id"})
+    if not ok or not exact:
+        acc["violations"].append({
+            "clause": "every-column-once" if not ok else "exact-names",
+            "key": "C17/builder-reuse/" + ("stale-or-lost" if not ok else "exact-name-not-kept"),
+            "what": f"builder prepared {maps[0][0]} and then {cols}; map after the second "
+                    f"prepare: {res}; unused {[c for c in cols if used[c] == 0]}, foreign "
+                    f"{[c for c in used if c not in cols]}",
+            "replay": {"kind": "builder", "first": maps[0][0], "cols": cols, "required": [],
+                       "ndim": None}})
+
+
 def plan(tier, seed):
     maxlen = 4 if tier == "quick" else 5
     specs = []
@@ -190,6 +236,8 @@ def run_shard(spec):
     else:
         rng = random.Random(spec["seed"])
         for i in range(spec["n"]):
+            if i % 20 == 0:
+                run_builder_case(rng, acc)
             if rng.random() < 0.8:
                 k = rng.randint(0, 12)
                 cols = rng.sample(VOCAB, k)
@@ -223,12 +271,26 @@ def run_shard(spec):
 def floors(tier):
     return {"exhaustive-lists": 13000 if tier == "quick" else 100000,
             "random-node-lists": 10000, "random-edge-lists": 2000,
-            "contract-evaluations": 20000}
+            "contract-evaluations": 20000, "builder-reuse-cases": 500}
 
 
 def replay(doc):
     if doc.get("kind") == "pytest":
         return common.replay_pytest(doc, PROP)
+    if doc.get("kind") == "builder":
+        import pandas as pd
+
+        from funtracks.import_export import CSVTracksBuilder
+
+        contracted()
+        b = CSVTracksBuilder()
+        for cols in (doc["first"], doc["cols"]):
+            b.prepare(pd.DataFrame({c: [1, 2] for c in cols}))
+        used = Counter(flatten(dict(b.node_name_map)))
+        if used != Counter(doc["cols"]):
+            return [{"clause": "every-column-once", "key": "C17/builder-reuse/stale-or-lost",
+                     "what": f"map after second prepare {dict(b.node_name_map)}"}]
+        return []
     acc = common.new_acc()
     run_case(doc["kind"], doc["cols"], doc["required"], doc["ndim"], acc)
     return acc["violations"]
